@@ -432,7 +432,7 @@ func drawPlan(rt *rapid.T, name string) rawpeer.Plan {
 
 func TestC22(t *testing.T) {
 	rec := evi.New(t, "C22", evi.Exploration,
-		"generated blocks (C01 generator: real templates of every era, rebuilt transaction lists, non-canonical CBOR style plans, recomputed header commitment) are pushed (route 1) through NewMsgRollForwardNtC/NtN -> cbor.Encode -> independent xcbor check of the wire shape -> NewMsgFromCborNtC/NtN -> the client's type mapping and block/header decoder, also with the wire message's outer heads restyled; (route 2) through chainsync.Server.RollForward on a real server Connection to the RollForward/RollForwardRaw callback of a real client Connection over an in-memory pipe with generator-chosen read fragmentation, 1..3 blocks per session, NtC (all eras) and NtN (Shelley+). Oracle: same block type; NtC byte-identical block (raw and decoded Cbor()) and hash; NtN header bytes == header item range of the served block, header.Hash() == blake2b-256(header range) == block.Hash(), era tag == era index and maps back to the served type. non-trivial = the message decoded at the receiving side and the block is not a fixture as-is (rebuilt tx list or >=1 non-canonical head); distinct by (route, mode, template, ops, edits)")
+		"generated blocks (C01 generator: real templates of every era, rebuilt transaction lists, non-canonical CBOR style plans, recomputed header commitment) are pushed (route 1) through NewMsgRollForwardNtC/NtN -> cbor.Encode -> independent xcbor check of the wire shape -> NewMsgFromCborNtC/NtN -> the client's type mapping and block/header decoder, also with the wire message's outer heads restyled; (route 2) through chainsync.Server.RollForward on a real server Connection to the RollForward/RollForwardRaw callback of a real client Connection over an in-memory pipe with generator-chosen read fragmentation, 1..3 blocks per session, NtC (all eras) and NtN (Shelley+). (ownership family, one case in two) the message is built from a scratch buffer holding block A which is then overwritten (next block B / zeros / noise / shifted / untouched) before the message is encoded and decoded, and likewise the wire buffer is overwritten after the client-side decode before block/header are inspected. Oracle: same block type; NtC byte-identical block (raw and decoded Cbor()) and hash; NtN header bytes == header item range of the served block, header.Hash() == blake2b-256(header range) == block.Hash(), era tag == era index and maps back to the served type. non-trivial = the message decoded at the receiving side and the block is not a fixture as-is (rebuilt tx list or >=1 non-canonical head); distinct by (route, mode, template, ops, edits)")
 	defer rec.Finish()
 	rec.Assume(
 		"xcbor defines the header item range; blake2b-256 from x/crypto",
@@ -486,6 +486,11 @@ func TestC22(t *testing.T) {
 					rec.Class("pair_ntn_restyled_ok")
 				}
 			}
+		}
+
+		// ownership / buffer-reuse family (c22_ownership_test.go), one case in two
+		if rapid.Bool().Draw(rt, "ownership") && g.V.Layout() != LayoutByronEbb {
+			c.ownership(s, GenBlock(rt, GenOpts{MaxTx: 6}))
 		}
 
 		// route 2
